@@ -41,6 +41,11 @@ func genBytes(r *mon.Rand, max int) string {
 		n = 0
 	case 1:
 		n = r.Range(120, 135) // around the 1-byte varint length limit
+		if r.Bool() {
+			// exactly at, one below and one above the sizes of the codec's scratch
+			// buffers and of the varint length steps
+			n = []int{63, 64, 65, 127, 128, 129, 255, 256}[r.Intn(8)]
+		}
 	case 2:
 		if max >= 1024 {
 			n = r.Range(1000, 1024)
